@@ -19,6 +19,9 @@ structure Fd where
   fill : Nat
   cap : Nat
   closes : Nat := 0
+  /-- zero-length datagrams queued (the library's probe on a datagram socket with room leaves one):
+      they take a place in the queue, make the socket readable, and carry no byte -/
+  empties : Nat := 0
 deriving Repr
 
 inductive Method where | send | write
@@ -32,8 +35,15 @@ def probe (fd : Fd) : Probe :=
   match fd.kind with
   | .pipe => .other
   | .stream => .zero
-  | .dgram => if fd.fill < fd.cap then .zero else .eagain
+  | .dgram => if fd.fill + fd.empties < fd.cap then .zero else .eagain
   | .other => .other
+
+/-- `register_raw` up to the registration itself: the chosen method and the descriptor's flags -/
+def classify (fd : Fd) : Method × Fd :=
+  match probe fd with
+  | .zero => (.send, if fd.kind == .dgram then { fd with empties := fd.empties + 1 } else fd)
+  | .eagain => (.send, fd)
+  | .other => (.write, { fd with nonblock := true })
 
 /-- `set_flags` (`F_GETFL` + `F_SETFL(O_NONBLOCK)`) succeeds on pipes (and would on sockets) -/
 def setFlagsOk (fd : Fd) : Bool := fd.kind != .other
@@ -42,15 +52,9 @@ def setFlagsOk (fd : Fd) : Bool := fd.kind != .other
 descriptor is then closed by the drop of the `WakeFd` that already owns it -/
 def prepare (fd : Fd) : Option (Method × Fd) × Fd :=
   match probe fd with
-  | .zero | .eagain => (some (.send, fd), fd)
+  | .zero | .eagain => (some (classify fd), (classify fd).2)
   | .other => if setFlagsOk fd then (some (.write, { fd with nonblock := true }), { fd with nonblock := true })
               else (none, { fd with closes := fd.closes + 1 })
-
-/-- `register_raw` up to the registration itself: the chosen method and the descriptor's flags -/
-def classify (fd : Fd) : Method × Fd :=
-  match probe fd with
-  | .zero | .eagain => (.send, fd)
-  | .other => (.write, { fd with nonblock := true })
 
 inductive WakeRes where
   | wrote
@@ -61,7 +65,7 @@ deriving DecidableEq, Repr
 
 /-- one `wake`: exactly one attempt to put one byte -/
 def wake (m : Method) (fd : Fd) : Fd × WakeRes :=
-  if fd.fill < fd.cap then ({ fd with fill := fd.fill + 1 }, .wrote)
+  if fd.fill + fd.empties < fd.cap then ({ fd with fill := fd.fill + 1 }, .wrote)
   else
     match m with
     | .send => (fd, .eagain)                       -- MSG_DONTWAIT
@@ -76,7 +80,7 @@ def burst (m : Method) : Fd → Nat → Fd × List WakeRes
     (rest.1, r.2 :: rest.2)
 
 /-- the reader drains everything -/
-def drain (fd : Fd) : Fd × Nat := ({ fd with fill := 0 }, fd.fill)
+def drain (fd : Fd) : Fd × Nat := ({ fd with fill := 0, empties := 0 }, fd.fill)
 
 /-- `WakeFd::drop` -/
 def close (fd : Fd) : Fd := { fd with closes := fd.closes + 1 }
